@@ -36,6 +36,7 @@
 #define PARSE_EXPECTED_COMMA     -3
 #define PARSE_EXPECTED_SEMICOLON -4
 #define PARSE_SYSTEM_ERROR       -5
+#define PARSE_TOO_DEEP           -6
 
 static struct conf_node_object conf_root;
 static struct log_type *conf_log;
@@ -59,6 +60,7 @@ struct conf_parse {
     const char *c_function;
     int line_num;
     int c_errno;
+    unsigned int depth;
 };
 
 static void config_init(void);
@@ -725,6 +727,11 @@ static void conf_parse_entry(struct conf_parse *parse, struct conf_node_object *
         struct conf_node_object *node;
         char ch;
 
+        /* Each level of nesting is a level of recursion, here and
+         * when the tree is merged and freed.
+         */
+        if (++parse->depth > CONF_MAX_DEPTH)
+            longjmp(parse->env, PARSE_TOO_DEEP);
         node = conf_parse_get_child(parent, name, CONF_OBJECT, sizeof(*node));
         node->contents.compare = conf_object_cmp;
         node->contents.cleanup = conf_object_cleanup;
@@ -737,6 +744,7 @@ static void conf_parse_entry(struct conf_parse *parse, struct conf_node_object *
             parse->curr--;
             conf_parse_entry(parse, node);
         }
+        parse->depth--;
     } else {
         char *string;
 
@@ -972,6 +980,7 @@ char *conf_lookup(const char *node_path, struct conf_node_base **found)
         return NULL;
     memset(&cv, 0, sizeof(cv));
     parse.data = parse.curr = parse.line_start = node_path;
+    parse.depth = 0;
     res = setjmp(parse.env);
     switch (res) {
     case 0:
@@ -1116,6 +1125,9 @@ char *conf_update_node(const char *node_path_and_value)
     case PARSE_EXPECTED_SEMICOLON:
         char_vector_append_printf(&cv, "Expected a semicolon.");
         break;
+    case PARSE_TOO_DEEP:
+        char_vector_append_printf(&cv, "Objects nested too deeply.");
+        break;
     default:
         char_vector_append_printf(&cv, "Unhandled parse error: %s", strerror(res));
         break;
@@ -1159,6 +1171,9 @@ int conf_read(const char *filename)
         break;
     case PARSE_SYSTEM_ERROR:
         log_message(conf_log, LOG_ERROR, "System error from %s: %s", parse.c_function, strerror(parse.c_errno));
+        break;
+    case PARSE_TOO_DEEP:
+        log_message(conf_log, LOG_ERROR, "Objects nested more than %d deep on line %d of %s.", CONF_MAX_DEPTH, parse.line_num, filename);
         break;
     default:
         if (!parse.line_num)
